@@ -125,10 +125,9 @@ theorem c20_stage_table :
 
 /-- **get_joint_names**: exactly the fields whose stage matches, in the order of the dictionary -/
 theorem c20_joint_names {N : Type} (fields : List (N × ℕ)) (st : Stages) :
-    jointNames fields st = (fields.filter (fun f => orCheckS f.2 st)).map Prod.fst ∧
     (jointNames fields st).Sublist (fields.map Prod.fst) ∧
     ∀ n, n ∈ jointNames fields st ↔ ∃ stage, (n, stage) ∈ fields ∧ orCheckS stage st = true := by
-  refine ⟨rfl, ?_, ?_⟩
+  refine ⟨?_, ?_⟩
   · unfold jointNames
     exact List.Sublist.map _ List.filter_sublist
   · intro n
@@ -406,6 +405,85 @@ theorem c20_pdfset_add_keeps_others (h : List (K × V) → H) (s s' : List (H ×
     rw [← hadd, C20.odGet_odSet_ne _ _ _ _ hne]
 
 example : addPdf (K := ℕ) (V := ℕ) (P := ℕ) id [] [(1, 5), (0, 7)] 3 = some [([(0, 7), (1, 5)], 3)] := by decide
+
+
+omit [DecidableEq H] in
+/-- **separation**: with a collision-free `hash`, equal keys mean the same items — the key forgets
+neither a key nor a value (a model / code hashing the keys only fails this). -/
+theorem c20_hash_separates (h : List (K × V) → H) (hinj : Function.Injective h) (d₁ d₂ : List (K × V))
+    (he : hashKey h d₁ = hashKey h d₂) : d₁.Perm d₂ := by
+  unfold hashKey at he
+  have := hinj he
+  exact (C20.canon_perm d₁).symm.trans (this ▸ C20.canon_perm d₂)
+
+example : Function.Injective (id : List (ℕ × ℕ) → List (ℕ × ℕ)) := Function.injective_id
+
+/-- **PDFSet**: adding a PDF for one grid point leaves the lookup of every *different* grid point
+as it was (no hypothesis on the keys: it follows from the separation). -/
+theorem c20_pdfset_add_keeps_other_points (h : List (K × V) → H) (hinj : Function.Injective h)
+    (s s' : List (H × P)) (d₁ d₃ : List (K × V)) (p : P) (hadd : addPdf h s d₁ p = some s')
+    (hnp : ¬ d₁.Perm d₃) : getPdf h s' d₃ = getPdf h s d₃ :=
+  c20_pdfset_add_keeps_others h s s' d₁ d₃ p hadd (fun he => hnp (c20_hash_separates h hinj d₁ d₃ he))
+
+/-- **PDFSet**: in a set holding one PDF, any different grid point is not found -/
+theorem c20_pdfset_get_other_none (h : List (K × V) → H) (hinj : Function.Injective h)
+    (s' : List (H × P)) (d₁ d₃ : List (K × V)) (p : P) (hadd : addPdf h [] d₁ p = some s')
+    (hnp : ¬ d₁.Perm d₃) : getPdf h s' d₃ = none := by
+  rw [c20_pdfset_add_keeps_other_points h hinj [] s' d₁ d₃ p hadd hnp]
+  rfl
+
+example : ¬ ([(0, 1)] : List (ℕ × ℕ)).Perm [(0, 2)] := by decide
+
+/-! #### the current `make_dict_hash`: values enter through `_value_repr` (`normVal`) -/
+
+omit [LinearOrder K] [DecidableEq H] in
+theorem C20.normItems_keys (d : List (K × PyVal)) : (normItems d).map Prod.fst = d.map Prod.fst := by
+  simp [normItems, Function.comp_def]
+
+omit [DecidableEq H] in
+/-- the dictionary key of the current code does not depend on the filling order -/
+theorem c20_grid_key_order_indep (h : List (K × PyVal) → H) (d₁ d₂ : List (K × PyVal))
+    (hp : d₁.Perm d₂) (hn : (d₁.map Prod.fst).Nodup) : gridKey h d₁ = gridKey h d₂ := by
+  unfold gridKey
+  exact c20_hash_order_indep h _ _ (hp.map _) (by rw [C20.normItems_keys]; exact hn)
+
+omit [DecidableEq H] in
+/-- … depends on the values only through `_value_repr` (so `2`, `2.0`, `numpy.float32(2)` agree) … -/
+theorem c20_grid_key_value_classes (h : List (K × PyVal) → H) (d₁ d₂ : List (K × PyVal))
+    (hv : normItems d₁ = normItems d₂) : gridKey h d₁ = gridKey h d₂ := by
+  unfold gridKey; rw [hv]
+
+omit [DecidableEq H] in
+/-- … and separates everything else: equal keys ⇒ the same keys with the same normalised values -/
+theorem c20_grid_key_separates (h : List (K × PyVal) → H) (hinj : Function.Injective h)
+    (d₁ d₂ : List (K × PyVal)) (he : gridKey h d₁ = gridKey h d₂) : (normItems d₁).Perm (normItems d₂) :=
+  c20_hash_separates h hinj _ _ he
+
+omit [LinearOrder K] [DecidableEq H] in
+/-- `_value_repr`: an integer (bool, numpy integer) whose float value is the same number is
+represented like that float -/
+theorem c20_normVal_number (i : Int) (b : Nat) : normVal (.int i (some b)) = normVal (.flt b) := rfl
+
+omit [LinearOrder K] [DecidableEq H] in
+/-- `_value_repr` keeps different floats apart (only the NaNs and the two zeros are identified) -/
+theorem c20_normVal_flt_inj (a b : Nat) (ha : isNaNBits a = false) (hb : isNaNBits b = false)
+    (ha0 : a ≠ 2 ^ 63) (hb0 : b ≠ 2 ^ 63) (he : normVal (.flt a) = normVal (.flt b)) : a = b := by
+  simp only [normVal, normBits, ha, hb, Bool.false_eq_true, if_false, PyVal.flt.injEq] at he
+  rw [if_neg ha0, if_neg hb0] at he
+  exact he
+
+omit [LinearOrder K] [DecidableEq H] in
+/-- numbers, non-representable integers and other values never get the same representation -/
+theorem c20_normVal_kinds (a : Nat) (i : Int) (c : Nat) :
+    normVal (.flt a) ≠ normVal (.int i none) ∧ normVal (.flt a) ≠ normVal (.other c) ∧
+    normVal (.int i none) ≠ normVal (.other c) := by
+  simp [normVal]
+
+-- 2 (int, exactly 2.0), 2.0, -0.0 / 0.0, two NaNs, two neighbouring floats
+example : normVal (.int 2 (some 0x4000000000000000)) = normVal (.flt 0x4000000000000000) ∧
+    normVal (.flt (2 ^ 63)) = normVal (.flt 0) ∧
+    normVal (.flt 0x7ff8000000000001) = normVal (.flt 0xfff8000000000000) ∧
+    normVal (.flt 0x4000000000000000) ≠ normVal (.flt 0x4000000000000001) := by decide
 
 end hashthms
 
@@ -740,32 +818,32 @@ theorem applyAct_refines (w : World N) (hw : WInv w) (a : Act N) :
   cases a with
   | extend j xs =>
     cases h : w.colls[j]? with
-    | none => simp only [applyAct, specApply, view_getElem?, h, Option.map_none]; exact ⟨trivial, trivial, hw⟩
+    | none => simp only [applyAct, applyActWith, specApply, view_getElem?, h, Option.map_none]; exact ⟨trivial, trivial, hw⟩
     | some c =>
       have he := extendAt_eq w.colls j c xs (fun i a ha e => hw.oInj i j a c ha h e)
         (fun i a ha e => hw.iInj i j a c ha h e) h
-      simp only [applyAct, specApply, view_getElem?, h, Option.map_some, he]
+      simp only [applyAct, applyActWith, specApply, view_getElem?, h, Option.map_some, he]
       refine ⟨?_, trivial, ?_⟩
       · simp only [view, List.map_set]; rfl
       · exact winv_set w hw j c (extended c xs) w.next h rfl (Or.inl rfl) (le_refl _) (hw.lt j c h).2
           (extended_coh c xs (hw.coh j c h))
   | erase j i =>
     cases h : w.colls[j]? with
-    | none => simp only [applyAct, specApply, view_getElem?, h, Option.map_none]; exact ⟨trivial, trivial, hw⟩
+    | none => simp only [applyAct, applyActWith, specApply, view_getElem?, h, Option.map_none]; exact ⟨trivial, trivial, hw⟩
     | some c =>
       cases ho : c.objects[i]? with
       | none =>
-        simp only [applyAct, specApply, view_getElem?, h, Option.map_some, ho]; exact ⟨trivial, trivial, hw⟩
+        simp only [applyAct, applyActWith, specApply, view_getElem?, h, Option.map_some, ho]; exact ⟨trivial, trivial, hw⟩
       | some o =>
         have hs := setObjects_eq w.colls j c (c.objects.eraseIdx i) (fun i a ha e => hw.oInj i j a c ha h e) h
-        simp only [applyAct, specApply, view_getElem?, h, Option.map_some, ho, eraseAt, hs, List.set_set]
+        simp only [applyAct, applyActWith, specApply, view_getElem?, h, Option.map_some, ho, eraseAt, hs, List.set_set]
         refine ⟨?_, trivial, ?_⟩
         · simp only [view, List.map_set]
         · exact winv_set w hw j c _ (w.next + 1) h rfl (Or.inr (le_refl _)) (by omega)
             (by show w.next < w.next + 1; omega) rfl
   | copyExtend j xs =>
     cases h : w.colls[j]? with
-    | none => simp only [applyAct, specApply, view_getElem?, h, Option.map_none]; exact ⟨trivial, trivial, hw⟩
+    | none => simp only [applyAct, applyActWith, specApply, view_getElem?, h, Option.map_none]; exact ⟨trivial, trivial, hw⟩
     | some c =>
       have hc' : (copyOf w.next c).idx = createIdx (copyOf w.next c).objects 0 := hw.coh j c h
       have hw1 : WInv { next := w.next + 2, colls := w.colls ++ [copyOf w.next c] } :=
@@ -778,7 +856,7 @@ theorem applyAct_refines (w : World N) (hw : WInv w) (a : Act N) :
       have hset : (w.colls ++ [copyOf w.next c]).set w.colls.length (extended (copyOf w.next c) xs) =
           w.colls ++ [extended (copyOf w.next c) xs] := by
         rw [List.set_append_right _ _ (le_refl _)]; simp
-      simp only [applyAct, specApply, view_getElem?, h, Option.map_some, he, hset]
+      simp only [applyAct, applyActWith, specApply, view_getElem?, h, Option.map_some, he, hset]
       refine ⟨?_, ?_, ?_⟩
       · simp only [view, List.map_append, List.map_cons, List.map_nil]; rfl
       · simp [view]
@@ -789,7 +867,7 @@ theorem applyAct_refines (w : World N) (hw : WInv w) (a : Act N) :
 theorem step_refines (w : World N) (hw : WInv w) (op : Op N) :
     view (step w op).1 = (specStep (view w) op).1 ∧ (step w op).2 = (specStep (view w) op).2 ∧
     WInv (step w op).1 := by
-  unfold step specStep
+  unfold step stepWith specStep
   rw [lookup_eq w hw]
   cases plan (view w) (specLookup (view w)) op with
   | error e => exact ⟨rfl, rfl, hw⟩
@@ -902,14 +980,15 @@ example :
     w.colls.map nameList = [[20], [], [10, 20]] := by
   decide
 
-/-- **`+` is pure**: `c_j + c_k` appends one new collection to the world and changes nothing else
+/-- the mutation behind every form of `+`: one new collection is appended, nothing else changes
 (every existing collection keeps its objects, its index and its identities); the new collection
-holds the objects of `c_j` followed by those of `c_k`, has new identities and a coherent index. -/
-theorem c20_plus_pure (w : World N) (hw : C20.WInv w) (j k : Nat) (a b : C N)
-    (ha : w.colls[j]? = some a) (hb : w.colls[k]? = some b) (hty : b.ty = a.ty) :
-    ∃ c : C N, step w (.plusColl j k) =
+holds the objects of the left operand followed by the added ones, has new identities and a
+coherent index. -/
+theorem c20_copy_extend_pure (w : World N) (hw : C20.WInv w) (j : Nat) (a : C N) (xs : List (Obj N))
+    (ha : w.colls[j]? = some a) :
+    ∃ c : C N, applyAct w (.copyExtend j xs) =
         ({ next := w.next + 2, colls := w.colls ++ [c] }, .ok (.coll w.colls.length)) ∧
-      c.objects = a.objects ++ b.objects ∧ c.ty = a.ty ∧ c.oloc = w.next ∧ c.iloc = w.next + 1 ∧
+      c.objects = a.objects ++ xs ∧ c.ty = a.ty ∧ c.oloc = w.next ∧ c.iloc = w.next + 1 ∧
       c.idx = createIdx c.objects 0 := by
   have hc' : (copyOf w.next a).idx = createIdx (copyOf w.next a).objects 0 := hw.coh j a ha
   have hw1 : C20.WInv { next := w.next + 2, colls := w.colls ++ [copyOf w.next a] } :=
@@ -917,21 +996,103 @@ theorem c20_plus_pure (w : World N) (hw : C20.WInv w) (j k : Nat) (a b : C N)
       ⟨by show w.next < w.next + 2; omega, by show w.next + 1 < w.next + 2; omega⟩ hc'
   have hget : (w.colls ++ [copyOf w.next a])[w.colls.length]? = some (copyOf w.next a) := by
     rw [List.getElem?_append_right (le_refl _)]; simp
-  have he := C20.extendAt_eq (w.colls ++ [copyOf w.next a]) w.colls.length (copyOf w.next a) b.objects
+  have he := C20.extendAt_eq (w.colls ++ [copyOf w.next a]) w.colls.length (copyOf w.next a) xs
     (fun i x hx e => hw1.oInj i _ x _ hx hget e) (fun i x hx e => hw1.iInj i _ x _ hx hget e) hget
-  have hset : (w.colls ++ [copyOf w.next a]).set w.colls.length (C20.extended (copyOf w.next a) b.objects) =
-      w.colls ++ [C20.extended (copyOf w.next a) b.objects] := by
+  have hset : (w.colls ++ [copyOf w.next a]).set w.colls.length (C20.extended (copyOf w.next a) xs) =
+      w.colls ++ [C20.extended (copyOf w.next a) xs] := by
     rw [List.set_append_right _ _ (le_refl _)]; simp
-  refine ⟨C20.extended (copyOf w.next a) b.objects, ?_, rfl, rfl, rfl, rfl, C20.extended_coh _ _ hc'⟩
-  simp only [step, plan, C20.view_getElem?, ha, hb, Option.map_some, hty, if_true, applyAct, he, hset]
+  refine ⟨C20.extended (copyOf w.next a) xs, ?_, rfl, rfl, rfl, rfl, C20.extended_coh _ _ hc'⟩
+  simp only [applyAct, applyActWith, ha, he, hset]
+
+/-- **`+` is pure**, `c_j + c_k` (two collections of the same object type) -/
+theorem c20_plus_pure (w : World N) (hw : C20.WInv w) (j k : Nat) (a b : C N)
+    (ha : w.colls[j]? = some a) (hb : w.colls[k]? = some b) (hty : b.ty = a.ty) :
+    ∃ c : C N, step w (.plusColl j k) =
+        ({ next := w.next + 2, colls := w.colls ++ [c] }, .ok (.coll w.colls.length)) ∧
+      c.objects = a.objects ++ b.objects ∧ c.ty = a.ty ∧ c.oloc = w.next ∧ c.iloc = w.next + 1 ∧
+      c.idx = createIdx c.objects 0 := by
+  have h := c20_copy_extend_pure w hw j a b.objects ha
+  simpa only [step, stepWith, plan, C20.view_getElem?, ha, hb, Option.map_some, hty, if_true, applyAct] using h
+
+/-- **`+` is pure**, `c_j + o` (an object of the collection's type) -/
+theorem c20_plus_obj_pure (w : World N) (hw : C20.WInv w) (j : Nat) (a : C N) (o : Obj N)
+    (ha : w.colls[j]? = some a) (hty : o.ty = a.ty) :
+    ∃ c : C N, step w (.plusObj j o) =
+        ({ next := w.next + 2, colls := w.colls ++ [c] }, .ok (.coll w.colls.length)) ∧
+      c.objects = a.objects ++ [o] ∧ c.ty = a.ty ∧ c.oloc = w.next ∧ c.iloc = w.next + 1 ∧
+      c.idx = createIdx c.objects 0 := by
+  have h := c20_copy_extend_pure w hw j a [o] ha
+  simpa only [step, stepWith, plan, C20.view_getElem?, ha, Option.map_some, checkObj, hty, if_true,
+    Except.map, applyAct] using h
+
+/-- **`+` is pure**, `c_j + [o₁, …]` (a sequence the argument checks accept) -/
+theorem c20_plus_seq_pure (w : World N) (hw : C20.WInv w) (j : Nat) (a : C N) (os xs : List (Obj N))
+    (ha : w.colls[j]? = some a) (hck : checkSeq a.ty os = .ok xs) :
+    ∃ c : C N, step w (.plusSeq j os) =
+        ({ next := w.next + 2, colls := w.colls ++ [c] }, .ok (.coll w.colls.length)) ∧
+      c.objects = a.objects ++ xs ∧ c.ty = a.ty ∧ c.oloc = w.next ∧ c.iloc = w.next + 1 ∧
+      c.idx = createIdx c.objects 0 := by
+  have h := c20_copy_extend_pure w hw j a xs ha
+  simpa only [step, stepWith, plan, C20.view_getElem?, ha, Option.map_some, hck, Except.map, applyAct] using h
 
 omit [DecidableEq N] in
-/-- the pinned `copy` (the object type passed as `objs`): `c + o` raises for every object that
-is not itself a class — the defect lead, replayed by the `coll_hist` / `plain_plus` oracles and
-repaired by a `fix:` commit. -/
-theorem c20_plus_old_raises (metaTy : Nat) (c : C N) (o : Obj N) (h : o.ty ≠ metaTy) :
-    plusOld metaTy c o = .error .typeError := by
-  simp [plusOld, checkObj, h, Except.map]
+/-- what `checkSeq` accepts: a non-empty sequence of objects of the collection's type, unchanged -/
+theorem c20_checkSeq_ok (ty : Nat) (os xs : List (Obj N)) (h : checkSeq ty os = .ok xs) :
+    xs = os ∧ os ≠ [] ∧ ∀ o ∈ os, o.ty = ty := by
+  cases os with
+  | nil => simp [checkSeq] at h
+  | cons o t =>
+    simp only [checkSeq] at h
+    split at h
+    · rename_i hc
+      simp only [Except.ok.injEq] at h
+      refine ⟨h.symm, by simp, ?_⟩
+      intro x hx
+      have hall := hc.1
+      rw [List.all_eq_true] at hall
+      have := hall x hx
+      simp only [decide_eq_true_eq] at this
+      rw [this]; exact hc.2
+    · cases h
+
+example : checkSeq (N := ℕ) 0 [⟨1, 10, 0⟩, ⟨2, 20, 0⟩] = .ok [⟨1, 10, 0⟩, ⟨2, 20, 0⟩] := by decide
+
+/-- when the argument checks of an operation fail (wrong type, empty sequence, unknown name, index
+out of range) the call raises and the world is exactly as before -/
+theorem c20_error_unchanged (w : World N) (op : Op N) (e : Err)
+    (hp : plan (view w) (lookupIdx w) op = .error e) : step w op = (w, .error e) := by
+  simp only [step, stepWith, hp]
+
+example : plan (N := ℕ) [(0, [])] (fun _ _ => none) (.plusSeq 0 []) = .error .typeError := rfl
+
+/-- the world semantics *can* tell a sharing copy apart (negative model, seeded change M4): with a
+`copy()` that keeps the same name-index dictionary the object lists still evolve like independent
+lists, but after `c0 + o2` the index of the operand `c0` is no longer the one rebuilt from its list. -/
+theorem c20_shared_index_counterexample :
+    let w0 := newColl ({ next := 0, colls := [] } : World ℕ) 0
+    let ops : List (Op ℕ) := [.addObj 0 ⟨1, 10, 0⟩, .plusObj 0 ⟨2, 20, 0⟩]
+    let w' := runWith copyShareIdx w0 ops
+    view w' = specRun (view w0) ops ∧
+    w'.colls.map (fun c => decide (c.idx = createIdx c.objects 0)) = [false, true] ∧
+    (run w0 ops).colls.map (fun c => decide (c.idx = createIdx c.objects 0)) = [true, true] := by
+  decide
+
+/-- negative model, seeded change M5: with a `copy()` that keeps the same object list the operand of
+`+` receives the added object — the refinement of independent lists fails. -/
+theorem c20_shared_list_counterexample :
+    let w0 := newColl ({ next := 0, colls := [] } : World ℕ) 0
+    let ops : List (Op ℕ) := [.addObj 0 ⟨1, 10, 0⟩, .plusObj 0 ⟨2, 20, 0⟩]
+    view (runWith copyShareList w0 ops) ≠ specRun (view w0) ops ∧
+    view (run w0 ops) = specRun (view w0) ops := by
+  decide
+
+/-- "last position wins" with clashing names (non-vacuity of the general part of
+`c20_coherent_accessors`): two objects called 10 at positions 0 and 2 -/
+example :
+    let c : C ℕ := { oloc := 0, iloc := 1, ty := 0, objects := [⟨1, 10, 0⟩, ⟨2, 20, 0⟩, ⟨3, 10, 0⟩],
+                     idx := createIdx [⟨1, 10, 0⟩, ⟨2, 20, 0⟩, ⟨3, 10, 0⟩] 0 }
+    getIndexByName c 10 = .ok 2 ∧ nameList c = [10, 20] ∧ getItemName c 10 = .ok ⟨3, 10, 0⟩ := by
+  decide
 
 end collthms
 
